@@ -1,7 +1,7 @@
 import CogentModel.Json
+import Driver.PruneCmds
 open CogentModel
 
-def handle (cmd : String) (_j : J) : Except String J :=
-  throw s!"unknown command {cmd}"
+def handle (cmd : String) (j : J) : Except String J := PruneCmds.handle cmd j
 
 def main : IO Unit := driverLoop handle
